@@ -27,7 +27,9 @@ class plurality_run_step:
     pure_unless = "store_states"  # frame (C09): nothing of self is stored outside `if store_states:`
 
     def requires(self, profile, prev_state, store_states):
-        return (all_nonneg(profile.ballots, len(profile.ballots)) and distinct(profile.candidates, len(profile.candidates)))
+        return (all_nonneg(profile.ballots, len(profile.ballots)) and distinct(profile.candidates, len(profile.candidates))
+                # the previous round ranks candidates of the profile (a tally-based tiebreak reads their tallies from it)
+                and union_upto(prev_state.remaining, len(prev_state.remaining)) <= frozenset(profile.candidates))
 
     def raises_ValueError(self, profile, prev_state, store_states):
         return (self.m < 1 or self.m > count(prev_state.remaining, len(prev_state.remaining))
@@ -78,7 +80,9 @@ class borda_run_step:
     pure_unless = "store_states"  # frame (C09): nothing of self is stored outside `if store_states:`
 
     def requires(self, profile, prev_state, store_states):
-        return (all_nonneg(profile.ballots, len(profile.ballots)) and distinct(profile.candidates, len(profile.candidates)))
+        return (all_nonneg(profile.ballots, len(profile.ballots)) and distinct(profile.candidates, len(profile.candidates))
+                # the previous round ranks candidates of the profile (a tally-based tiebreak reads their tallies from it)
+                and union_upto(prev_state.remaining, len(prev_state.remaining)) <= frozenset(profile.candidates))
 
     def raises_ValueError(self, profile, prev_state, store_states):
         return (self.m < 1 or self.m > count(prev_state.remaining, len(prev_state.remaining))
@@ -130,7 +134,9 @@ class rating_run_step:
     pure_unless = "store_states"  # frame (C09): nothing of self is stored outside `if store_states:`
 
     def requires(self, profile, prev_state, store_states):
-        return (all_nonneg(profile.ballots, len(profile.ballots)) and distinct(profile.candidates, len(profile.candidates)))
+        return (all_nonneg(profile.ballots, len(profile.ballots)) and distinct(profile.candidates, len(profile.candidates))
+                # the previous round ranks candidates of the profile (a tally-based tiebreak reads their tallies from it)
+                and union_upto(prev_state.remaining, len(prev_state.remaining)) <= frozenset(profile.candidates))
 
     def raises_ValueError(self, profile, prev_state, store_states):
         return (self.m < 1 or self.m > count(prev_state.remaining, len(prev_state.remaining))
